@@ -10,7 +10,10 @@ from ..values import SymNum, Obj
 from .. import spec
 
 E = math.e
-FOREIGN = [("3", 3), ("2.5", 2.5), ("'x'", "x"), ("None", None), ("[]", "LIST"), ("Point()", "POINT")]
+FOREIGN = [("3", 3), ("2.5", 2.5), ("'x'", "x"), ("None", None), ("[]", "LIST"), ("Point()", "POINT"),
+           ("<a foreign object with a _variable_names attribute>", "LOOKALIKE-VARS"),
+           ("<a foreign object carrying all attributes of a Variable>", "LOOKALIKE-FULL"),
+           ("<a Derivative object>", "DERIVATIVE")]
 N_VALUES = [(1, True), (2, True), (7, True), (1000, True), (0, False), (-1, False), (-3, False),
             (2.0, True), (5.0, True), (1.0, True), (0.0, False), (-2.0, False), (2.5, False), (0.5, False),
             (1e-9, False), ("2", False), (None, False), (math.inf, False),
@@ -45,6 +48,14 @@ def ctor_case(args):
             return []
         if v == "POINT":
             return make_point_concrete(it, {})
+        if v == "LOOKALIKE-VARS":
+            from ..objengine import impostor
+            return impostor(it, "Lookalike", {"_variable_names": set()})
+        if v == "LOOKALIKE-FULL":
+            from ..objengine import impostor
+            return impostor(it, "Lookalike", dict(build(it, ("Variable", "q"), {}).attrs))
+        if v == "DERIVATIVE":
+            return it.call(cref(model, "Derivative"), [build(it, ("Variable", "q"), {})], {})
         return lift(v)
 
     def thunk(it):
